@@ -10,6 +10,7 @@ import (
 	"github.com/taurusgroup/multi-party-sig/pkg/ecdsa"
 	"github.com/taurusgroup/multi-party-sig/pkg/party"
 	"github.com/taurusgroup/multi-party-sig/pkg/protocol"
+	"github.com/taurusgroup/multi-party-sig/protocols/cmp"
 	"github.com/taurusgroup/multi-party-sig/protocols/doerner"
 	"github.com/taurusgroup/multi-party-sig/protocols/example"
 	"github.com/taurusgroup/multi-party-sig/verif/fw"
@@ -291,6 +292,17 @@ func ConfigDigest(p Proto, v interface{}) (string, bool) {
 	}
 	s += m.AuxTable("x")
 	switch c := v.(type) {
+	case *cmp.Config:
+		// everything else a later session depends on: the RID (part of
+		// every session identifier) and the party's own secrets
+		s += fmt.Sprintf(":rid=%x", []byte(c.RID))
+		if c.ElGamal != nil {
+			eb, _ := c.ElGamal.MarshalBinary()
+			s += fmt.Sprintf(":eg=%x", eb)
+		}
+		if c.Paillier != nil {
+			s += fmt.Sprintf(":p=%x:q=%x", c.Paillier.P().Bytes(), c.Paillier.Q().Bytes())
+		}
 	case *doerner.ConfigReceiver:
 		if c.Setup != nil {
 			b, _ := c.Setup.MarshalBinary()
